@@ -28,7 +28,7 @@ def run(tier, seed):
         "samples": c1["samples"][:1] + c2["samples"][:2],
         "evaluations": c1["evaluations"] + c2["evaluations"], "distinct_nontrivial": c1["distinct_nontrivial"] + c2["distinct_nontrivial"],
         "rule": "widths: every well-formed /W array TLC builds (<=3 disjoint groups in any order, both group forms) -> CID font dictionary "
-                "(inline or referenced arrays, code offsets 0/300/65520, via the Type0 wrapper and directly) -> Font::widths(..).get(code) for all codes, "
+                "(inline or referenced arrays, code offsets 0/300/65520/highest code on CID 65535, via the Type0 wrapper and directly) -> Font::widths(..).get(code) for all codes, "
                 "plus the simple-font FirstChar/Widths table; cmaps: every map over the small code/target domain -> write_cmap -> ToUnicode stream -> "
                 "Font::to_unicode, and every well-formed text of <=2-3 entries (bfchar, bfrange string/array) printed by a conformant printer "
                 "(1- and 2-byte codes, hex case, separators, code offsets up to 65535); non-trivial = >= 2 groups / >= 2 assigned codes",
